@@ -330,3 +330,671 @@ def seed_programs():
             with open(p, encoding="utf-8") as f:
                 res.append(("seed/%s/%s" % (sub, os.path.basename(p)), ver, f.read()))
     return res
+
+
+def build_corpus(ctx):
+    """Every seed program and shipped file that parses unedited, with its line classification."""
+    files = seed_programs() + shipped_files()
+    corpus, skipped = [], []
+    for rel, ver, text in files:
+        base = parse_canon(rel, text, ver)
+        if base[0] != "parsed" or base[2] == "{}":
+            skipped.append({"file": rel, "version": ver,
+                            "why": base[1] if base[0] == "error" else "not a Colang %s file (parser returns {})" % ver})
+            continue
+        lines = classify(text, ver)
+        corpus.append({"file": rel, "ver": ver, "text": text, "lines": lines, "base": base[1],
+                       "tabs": any(_has_tab_indent(x) for x in text.split("\n")),
+                       "seed": rel.startswith("seed/")})
+    return corpus, skipped
+
+
+# ------------------------------------------------------------------------------------------------
+# TLC: design runs and script emission
+# ------------------------------------------------------------------------------------------------
+def _mc_cfg(mode, ml, me, mnc, spec="Spec", emit=False):
+    cfg = ('CONSTANTS Mode = "%s"\nMaxLines = %d\nMaxEdits = %d\nMaxNonCode = %d\nMaxIndent = 3\n'
+           'SPECIFICATION %s\nINVARIANT BlocksPreserved\nINVARIANT StringsSafe\nINVARIANT StaysConsistent\n'
+           % (mode, ml, me, mnc, spec))
+    if emit:
+        cfg += "INVARIANT EmitLine\n"
+    return cfg
+
+
+def design_runs(ctx):
+    res = {"states": 0, "transitions": 0, "runs": []}
+    bounds = [(4, 2, 2)] if ctx.quick else [(4, 3, 1), (5, 2, 2), (7, 1, 2)]
+    for ml, me, mnc in bounds:
+        r = tlc.run("MC_Layout.tla", _mc_cfg("mc", ml, me, mnc), ctx.sub("mc_%d_%d_%d" % (ml, me, mnc)),
+                    spec_dirs=[SPEC_DIR], workers=NWORKERS, timeout=3000, expect_fail=True)
+        verdict = "holds" if r.ok else "violated: %s" % ",".join(r.violated or ["error"])
+        if r.errors and not r.violated:
+            raise tlc.TLCError("MC_Layout failed:\n" + "\n".join(r.out.splitlines()[-30:]))
+        ctx.log("TLC Layout universe MaxLines=%d MaxEdits=%d MaxNonCode=%d: %d states, invariants %s (%.0fs)" % (
+            ml, me, mnc, r.distinct, verdict, r.wall))
+        res["states"] += r.distinct
+        res["transitions"] += r.generated
+        res["runs"].append({"MaxLines": ml, "MaxEdits": me, "MaxNonCode": mnc, "states": r.distinct,
+                            "invariants": verdict})
+        if not r.ok:
+            ctx.note("design-level invariant violated in Layout universe: %s\n%s" % (r.violated, tlc.counterexample(r.out)[:1500]))
+    # negative control: re-indenting one code line is not layout
+    r = tlc.run("MC_Layout.tla", _mc_cfg("mc", 3, 1, 1, spec="BadSpec"), ctx.sub("mc_bad"), spec_dirs=[SPEC_DIR],
+                workers=4, timeout=3000, expect_fail=True)
+    res["negative_control"] = "caught" if "BlocksPreserved" in r.violated else "NOT caught"
+    if res["negative_control"] != "caught":
+        raise tlc.TLCError("negative control not caught: BlocksPreserved is vacuous")
+    # the loader automaton
+    r = tlc.run("MC_Loader.tla", "SPECIFICATION FairSpec\nINVARIANT LTypeOK\nINVARIANT LTerminates\nPROPERTY Eventually\n",
+                ctx.sub("mc_loader"), spec_dirs=[SPEC_DIR], workers=1, timeout=3000, deadlock=False)
+    res["states"] += r.distinct
+    res["transitions"] += r.generated
+    res["loader"] = {"states": r.distinct, "verdict": "holds" if r.ok else "violated"}
+    ctx.log("TLC Loader automaton: %d states, %s" % (r.distinct, res["loader"]["verdict"]))
+    return res
+
+
+def _doc_of(c, lo, hi, maxe):
+    """abstraction of lines lo..hi (1-based, inclusive) of corpus file c for MC_Layout (mode emit)."""
+    n = len(c["lines"])
+    return {"ver": c["ver"], "maxe": maxe, "endid": hi + 1,
+            "lines": [{"id": i, "indent": c["lines"][i - 1]["indent"], "class": c["lines"][i - 1]["class"],
+                       "endin": c["lines"][i - 1]["endin"], "tws": 0, "eol": False} for i in range(lo, hi + 1)]}
+
+
+def _window(c, rnd, w):
+    """a window of >= w lines that neither starts nor ends inside a string / continuation."""
+    L = c["lines"]
+    n = len(L)
+    for _ in range(20):
+        s = rnd.randint(1, max(1, n - w + 1))
+        while s > 1 and L[s - 1]["class"] in ("instring", "cont"):
+            s -= 1
+        if L[s - 1]["class"] in ("instring", "cont"):
+            continue
+        e = min(n, s + w - 1)
+        while e < n and (L[e - 1]["endin"] or L[e]["class"] in ("instring", "cont")):
+            e += 1
+        if L[e - 1]["endin"] or e - s + 1 > 3 * w:
+            continue
+        return s, e
+    return None
+
+
+def plan_docs(ctx, corpus, rnd):
+    """which abstractions TLC gets: whole small files, windows of long ones."""
+    docs = []  # (corpus index, doc)
+    small = 14
+    for ci, c in enumerate(corpus):
+        n = len(c["lines"])
+        if n <= small and not any(l["endin"] for l in c["lines"][-1:]):
+            if ctx.quick:
+                maxe = 2 if n <= 10 else 1
+            else:
+                maxe = 3 if n <= 7 else 2
+            docs.append((ci, _doc_of(c, 1, n, maxe)))
+            if ctx.quick and maxe == 1:
+                w = _window(c, rnd, 5)
+                if w:
+                    docs.append((ci, _doc_of(c, w[0], w[1], 2)))
+        else:
+            plans = [(5, 2)] if ctx.quick else [(6, 2), (6, 2), (6, 2), (4, 3)]
+            if not ctx.quick and n <= 40:
+                docs.append((ci, _doc_of(c, 1, n, 1)))
+            for w, maxe in plans:
+                win = _window(c, rnd, w)
+                if win:
+                    docs.append((ci, _doc_of(c, win[0], win[1], maxe)))
+    return docs
+
+
+def emit_scripts(ctx, docs):
+    """TLC (mode emit) on the real abstractions -> {doc index: [script, ...]}, states"""
+    from concurrent.futures import ThreadPoolExecutor
+    nchunks = min(NWORKERS, max(1, len(docs) // 4))
+    chunks = [list(range(i, len(docs), nchunks)) for i in range(nchunks)]
+
+    def one(j):
+        wd = ctx.sub("emit%d" % j)
+        path = os.path.join(wd, "docs.json")
+        with open(path, "w") as f:
+            json.dump([docs[i][1] for i in chunks[j]], f)
+        r = tlc.run("MC_Layout.tla", _mc_cfg("emit", 0, 0, 0, emit=True), wd, spec_dirs=[SPEC_DIR],
+                    env={"DOCS_FILE": path}, workers=1, timeout=3000, expect_fail=True)
+        return j, r
+
+    scripts = {}
+    states = trans = 0
+    with ThreadPoolExecutor(NWORKERS) as ex:
+        for j, r in ex.map(one, range(nchunks)):
+            if not r.ok:
+                raise tlc.TLCError("MC_Layout emit run: %s %s\n%s" % (r.violated, r.errors[:3], "\n".join(r.out.splitlines()[-30:])))
+            states += r.distinct
+            trans += r.generated
+            for p in r.printed:
+                if "d" in p:
+                    scripts.setdefault(chunks[j][p["d"] - 1], []).append(p["s"])
+    return scripts, states, trans
+
+
+# ------------------------------------------------------------------------------------------------
+# layout replay
+# ------------------------------------------------------------------------------------------------
+def _edit_ctx(c, e):
+    """(class, endin) of the line an edit touches, as NeutralAt wants it."""
+    n = len(c["lines"])
+    if e["op"] == "scale":
+        return "all", False
+    if e["id"] == n + 1:
+        return "eof", False
+    l = c["lines"][e["id"] - 1]
+    return l["class"], l["endin"]
+
+
+def _head(c, e):
+    if e["op"] == "scale" or e["id"] > len(c["lines"]):
+        return ""
+    t = c["text"].split("\n")[e["id"] - 1].strip().split(" ")
+    return t[0][:12] if t else ""
+
+
+def _try(c, script):
+    ed = apply_script(c["text"], c["lines"], script)
+    r = parse_canon(c["file"], ed, c["ver"])
+    if r[0] == "parsed":
+        return "parsed", r[1] == c["base"], None
+    return "error", False, r[1]
+
+
+def _layout_worker(job):
+    import logging
+    logging.disable(logging.CRITICAL)
+    c, scripts = job
+    out = []
+    for s in scripts:
+        if c["tabs"] and any(e["op"] == "scale" for e in s):
+            out.append(None)  # indentation with tabs: scaling is not defined, not applied
+            continue
+        outcome, same, err = _try(c, s)
+        rec = {"outcome": outcome, "same": same, "err": err, "culprit": None}
+        if not (outcome == "parsed" and same) and len(s) > 1:
+            # smallest sub-script that already changes the result (narrow classification only)
+            for e in s:
+                o1, s1, e1 = _try(c, [e])
+                if not (o1 == "parsed" and s1):
+                    rec["culprit"] = [e, o1, e1]
+                    break
+        out.append(rec)
+    return c["file"], out
+
+
+def _saturation_scripts(c):
+    """driver-side compositions of TLC's neutral edits over the WHOLE file (every line touched once)."""
+    L = c["lines"]
+    n = len(L)
+    res = []
+    blanks = [{"op": "blank", "id": i, "k": 0 if i % 2 == 0 else 3} for i in range(1, n + 1)
+              if L[i - 1]["class"] not in ("instring", "cont")]
+    if not L[-1]["endin"]:
+        blanks.append({"op": "blank", "id": n + 1, "k": 0})
+    tws = [{"op": "tws", "id": i, "k": 1 + i % 3} for i in range(1, n + 1) if not L[i - 1]["endin"]]
+    res += [blanks, tws]
+    if c["ver"] == "2.x":
+        res.append([{"op": "eol", "id": i, "k": i % 2} for i in range(1, n + 1)
+                    if L[i - 1]["class"] == "code" and not L[i - 1]["endin"]])
+    else:
+        res.append([{"op": "twstab", "id": i, "k": 1} for i in range(1, n + 1) if not L[i - 1]["endin"]])
+    res.append([{"op": "scale", "id": 0, "k": 2}])
+    res.append([{"op": "scale", "id": 0, "k": 3}])
+    res.append(blanks + tws + res[2] + [{"op": "scale", "id": 0, "k": 2}])
+    return [s for s in res if s]
+
+
+# ------------------------------------------------------------------------------------------------
+# error path: mutated texts through RailsConfig.from_path
+# ------------------------------------------------------------------------------------------------
+ALPHABET = ["(", ")", '"', "'", ":", "$", "=", ",", " ", "\n", "\t", "#", "{", "@"]
+CO_NAME = "c13_case_file.co"
+
+SOUP = {
+    "2.x": ["flow", "main", "match", "send", "start", "await", "when", "or when", "else", "if", "elif", "while", "and",
+            "or", "not", "as", "in", "is", "$x", "$y", "=", "==", "+=", "(", ")", "[", "]", "{", "}", ":", ",", ".", '"',
+            "'", '"""', "'''", "#", "@", "...", "->", "1", "2.5", "0x", "True", "None", "\n", "\n  ", "\n    ", "\n ", " ",
+            "\t", "return", "abort", "break", "import", "core", "UtteranceBotAction", "Finished", "regex", "\u00e9",
+            "\u00df", "\u65e5\u672c", "\U0001F642", "\u00a0", "\u2028", "\r\n", "\\", "*", "**", "-", "/", "<", ">", "!",
+            "%", "activate", "global", "log", "print", "priority", "pass", "continue", "a", "b_1", "\"hi\"", "'x'",
+            "$", "()", "E1()", "x=1"],
+    "1.0": ["define", "flow", "subflow", "user", "bot", "execute", "if", "else", "else if", "while", "when",
+            "else when", "stop", "goto", "label", "do", "set", "$x", "$y", "=", "==", "(", ")", "[", "]", "{", "}", ":",
+            ",", ".", '"', "'", '"""', "#", "...", "1", "2.5", "True", "None", "\n", "\n  ", "\n    ", "\n ", " ", "\t",
+            "meta", "priority", "event", "include", "import", "any", "or", "and", "not", "return", "break", "continue",
+            "express", "greeting", "ask", "name", "\"hi\"", "'x'", "\u00e9", "\u00df", "\u65e5\u672c", "\U0001F642",
+            "\u00a0", "\u2028", "\r\n", "\\", "*", "+", "-", "/", "<", ">", "!", "%", "foo(a=1)", "$r", "checkpoint",
+            "infer", "parallel", "extension", "for", "in", "$", "()", "run", "done", "pass", "new", "context", "expect"],
+}
+
+
+def error_cases(ctx, corpus, rnd):
+    """[(seed name, version, mutation label, text)]"""
+    cases = []
+    nseeds = 5 if ctx.quick else 40
+    ins_frac = 0.25 if ctx.quick else 1.0
+    nsoups = 250 if ctx.quick else 2500
+    used = {}
+    for ver in ("1.0", "2.x"):
+        cand = [c for c in corpus if c["seed"] and c["ver"] == ver and len(c["lines"]) <= 13
+                and "import " not in c["text"]]
+        pick = cand if len(cand) <= nseeds else rnd.sample(cand, nseeds)
+        used[ver] = [c["file"] for c in pick]
+        for c in pick:
+            t = c["text"]
+            for i in range(len(t)):
+                cases.append((c["file"], ver, "del@%d" % i, t[:i] + t[i + 1:]))
+                cases.append((c["file"], ver, "trunc@%d" % i, t[:i]))
+            for i in range(len(t) + 1):
+                for sym in ALPHABET:
+                    if ins_frac >= 1.0 or rnd.random() < ins_frac:
+                        cases.append((c["file"], ver, "ins@%d:%s" % (i, json.dumps(sym)), t[:i] + sym + t[i:]))
+        toks = SOUP[ver]
+        for j in range(nsoups):
+            n = rnd.randint(1, 25)
+            sep = rnd.choice(["", " ", " "])
+            txt = sep.join(rnd.choice(toks) for _ in range(n))
+            if rnd.random() < 0.5:
+                txt = ("flow main\n  " if ver == "2.x" else "define flow main\n  ") + txt
+            cases.append(("soup", ver, "soup#%d" % j, txt))
+    return cases, used
+
+
+class _Timeout(BaseException):
+    pass
+
+
+def _alarm(signum, frame):
+    raise _Timeout()
+
+
+def load_once(dirpath, ver, text):
+    """write the text as the only .co file of a config directory and load it.  -> observation dict"""
+    import logging
+    import warnings
+    logging.disable(logging.CRITICAL)
+    warnings.simplefilter("ignore")
+    from nemoguardrails import RailsConfig
+    from nemoguardrails.colang.v2_x.runtime.errors import ColangParsingError
+    os.makedirs(dirpath, exist_ok=True)
+    with open(os.path.join(dirpath, "config.yml"), "w") as f:
+        f.write('colang_version: "%s"\n' % ver)
+    with open(os.path.join(dirpath, CO_NAME), "w", encoding="utf-8", newline="") as f:
+        f.write(text)
+    obs = {"kind": "loaded", "exception_type": "", "parsing_error": False, "names_file": False,
+           "raised_in": "", "cause_type": "", "message": ""}
+    old = signal.signal(signal.SIGALRM, _alarm)
+    t0 = time.time()
+    signal.alarm(BUDGET_S)
+    try:
+        RailsConfig.from_path(dirpath)
+    except _Timeout:
+        obs["kind"] = "timeout"
+    except Exception as ex:  # noqa
+        signal.alarm(0)
+        obs["kind"] = "exception"
+        obs["exception_type"] = type(ex).__name__
+        obs["parsing_error"] = isinstance(ex, ColangParsingError)
+        obs["names_file"] = CO_NAME in str(ex)
+        obs["message"] = str(ex)[:300]
+        tb = traceback.extract_tb(ex.__traceback__)
+        if tb:
+            obs["raised_in"] = tb[-1].name
+        inner = ex
+        seen = 0
+        while (inner.__cause__ or inner.__context__) is not None and seen < 10:
+            inner = inner.__cause__ or inner.__context__
+            seen += 1
+        if inner is not ex:
+            obs["cause_type"] = type(inner).__name__
+    finally:
+        signal.alarm(0)
+        signal.signal(signal.SIGALRM, old)
+    obs["seconds"] = round(time.time() - t0, 3)
+    obs["over_budget"] = obs["kind"] == "timeout" or obs["seconds"] > BUDGET_S
+    return obs
+
+
+def _farm_child(conn, scratch):
+    d = os.path.join(scratch, "w%d" % os.getpid())
+    while True:
+        try:
+            msg = conn.recv()
+        except EOFError:
+            return
+        if msg is None:
+            return
+        for cid, ver, text in msg:
+            conn.send((cid, load_once(d, ver, text)))
+        conn.send(("done", None))
+
+
+def run_farm(ctx, cases, batch=40):
+    """Load every case in worker processes; a worker that does not answer within the budget (stuck in C code,
+    where the alarm cannot fire) is killed and the case in flight is recorded as a hang."""
+    from multiprocessing.connection import wait
+    scratch = ctx.sub("load")
+    results = {}
+    pending = list(range(len(cases)))
+    pending.reverse()
+    workers = {}
+
+    def spawn():
+        a, b = mp.Pipe()
+        p = mp.Process(target=_farm_child, args=(b, scratch), daemon=True)
+        p.start()
+        b.close()
+        return {"p": p, "conn": a, "batch": [], "t": time.time()}
+
+    def feed(w):
+        if not pending:
+            return False
+        ids = [pending.pop() for _ in range(min(batch, len(pending)))]
+        w["batch"] = ids
+        w["t"] = time.time()
+        w["conn"].send([(i, cases[i][1], cases[i][3]) for i in ids])
+        return True
+
+    ws = []
+    for _ in range(NWORKERS):
+        w = spawn()
+        if feed(w):
+            ws.append(w)
+        else:
+            w["conn"].send(None)
+    while ws:
+        ready = wait([w["conn"] for w in ws], timeout=1.0)
+        now = time.time()
+        for w in list(ws):
+            if w["conn"] in ready:
+                try:
+                    cid, obs = w["conn"].recv()
+                except EOFError:
+                    cid, obs = "dead", None
+                w["t"] = now
+                if cid == "done":
+                    if not feed(w):
+                        w["conn"].send(None)
+                        ws.remove(w)
+                elif cid == "dead":
+                    first = w["batch"][0] if w["batch"] else None
+                    if first is not None:
+                        results[first] = {"kind": "exception", "exception_type": "WorkerDied", "parsing_error": False,
+                                          "names_file": False, "raised_in": "", "cause_type": "", "message": "worker process died",
+                                          "seconds": 0.0, "over_budget": False}
+                        pending.extend(reversed(w["batch"][1:]))
+                    ws.remove(w)
+                    nw = spawn()
+                    if feed(nw):
+                        ws.append(nw)
+                    else:
+                        nw["conn"].send(None)
+                else:
+                    results[cid] = obs
+                    w["batch"].remove(cid)
+            elif now - w["t"] > BUDGET_S + 10:
+                w["p"].kill()
+                first = w["batch"][0]
+                results[first] = {"kind": "timeout", "exception_type": "", "parsing_error": False, "names_file": False,
+                                  "raised_in": "", "cause_type": "", "message": "worker killed (no answer)",
+                                  "seconds": round(now - w["t"], 1), "over_budget": True}
+                pending.extend(reversed(w["batch"][1:]))
+                ws.remove(w)
+                nw = spawn()
+                if feed(nw):
+                    ws.append(nw)
+                else:
+                    nw["conn"].send(None)
+    assert len(results) == len(cases), "farm: %d results for %d cases" % (len(results), len(cases))
+    return [results[i] for i in range(len(cases))]
+
+
+# ------------------------------------------------------------------------------------------------
+# the check
+# ------------------------------------------------------------------------------------------------
+def _norm_first_line(msg):
+    s = (msg or "").strip().split("\n")[0]
+    s = re.sub(r"/\S+", "<path>", s)
+    s = re.sub(r"\d+", "N", s)
+    return s[:80]
+
+
+def run(ctx):
+    rnd = random.Random(ctx.seed)
+    import logging
+    logging.disable(logging.CRITICAL)
+
+    # ---- 1. corpus
+    corpus, skipped = build_corpus(ctx)
+    nseed = sum(1 for c in corpus if c["seed"])
+    ctx.log("corpus: %d generated programs + %d shipped .co files parse unedited (%d skipped: %s)" % (
+        nseed, len(corpus) - nseed, len(skipped), [s["file"] for s in skipped][:6]))
+    assert nseed >= 60, "seed programs do not parse any more (%d)" % nseed
+
+    # ---- 2. TLC: design argument, loader automaton, edit scripts for the real abstractions
+    design = design_runs(ctx)
+    docs = plan_docs(ctx, corpus, rnd)
+    scripts, estates, etrans = emit_scripts(ctx, docs)
+    nscripts = sum(len(v) for v in scripts.values())
+    ctx.log("TLC emitted %d edit scripts for %d real abstractions (%d files); invariants hold on all %d states" % (
+        nscripts, len(docs), len(set(ci for ci, _ in docs)), estates))
+
+    # ---- 3. layout replay
+    per_file = {}
+    for di, (ci, _) in enumerate(docs):
+        per_file.setdefault(ci, []).extend(("tlc", s) for s in scripts.get(di, []))
+    for ci, c in enumerate(corpus):
+        per_file.setdefault(ci, []).extend(("saturate", s) for s in _saturation_scripts(c))
+    jobs = []
+    job_meta = []
+    for ci, lst in per_file.items():
+        c = corpus[ci]
+        slim = {k: c[k] for k in ("file", "ver", "text", "lines", "base", "tabs")}
+        step = 400
+        for a in range(0, len(lst), step):
+            jobs.append((slim, [s for _, s in lst[a:a + step]]))
+            job_meta.append((ci, lst[a:a + step]))
+    layout_cases = []
+    t0 = time.time()
+    with mp.Pool(NWORKERS) as pool:
+        for (ci, lst), (fname, out) in zip(job_meta, pool.imap(_layout_worker, jobs, chunksize=1)):
+            c = corpus[ci]
+            for (src, s), rec in zip(lst, out):
+                if rec is None:
+                    continue
+                layout_cases.append((ci, src, s, rec))
+    ctx.log("layout: %d edited texts parsed with the real parser (%.0fs)" % (len(layout_cases), time.time() - t0))
+
+    # ---- 4. error path
+    ecases, used_seeds = error_cases(ctx, corpus, rnd)
+    t0 = time.time()
+    eobs = run_farm(ctx, ecases)
+    ctx.log("error path: %d mutated texts loaded with RailsConfig.from_path (%.0fs)" % (len(ecases), time.time() - t0))
+
+    # ---- 5. judge in TLA+ (identical observation records are merged, n = multiplicity)
+    lkeys, lrecs, lmap = {}, [], []
+    for (ci, src, s, rec) in layout_cases:
+        c = corpus[ci]
+        edits = sorted(set((e["op"],) + _edit_ctx(c, e) + (e["k"],) for e in s))
+        key = json.dumps([c["ver"], edits, rec["outcome"], rec["same"]])
+        if key not in lkeys:
+            lkeys[key] = len(lrecs)
+            lrecs.append({"ver": c["ver"], "edits": [{"op": e[0], "class": e[1], "endin": e[2], "k": e[3]} for e in edits],
+                          "orig_ok": True, "edited_outcome": rec["outcome"], "same_as_original": rec["same"],
+                          "n": 0, "file": c["file"]})
+        lrecs[lkeys[key]]["n"] += 1
+        lmap.append(lkeys[key])
+    ekeys, erecs, emap = {}, [], []
+    for case, o in zip(ecases, eobs):
+        key = json.dumps([case[1], o["kind"], o["parsing_error"], o["names_file"], o["over_budget"], o["exception_type"]])
+        if key not in ekeys:
+            ekeys[key] = len(erecs)
+            erecs.append({"ver": case[1], "kind": o["kind"], "parsing_error": o["parsing_error"], "names_file": o["names_file"],
+                          "over_budget": o["over_budget"], "exception_type": o["exception_type"], "n": 0,
+                          "seed": case[0], "mutation": case[2]})
+        erecs[ekeys[key]]["n"] += 1
+        emap.append(ekeys[key])
+    jdir = ctx.sub("judge")
+    jf = os.path.join(jdir, "obs.json")
+    with open(jf, "w") as f:
+        json.dump({"layout": lrecs, "errors": erecs}, f)
+    jr = tlc.run("Judge_Parse.tla", "SPECIFICATION JSpec\nINVARIANT Verdict\n", jdir, spec_dirs=[SPEC_DIR],
+                 env={"TRACE_FILE": jf}, workers=1, timeout=3000)
+    verd = {p["k"]: p for p in jr.printed if "k" in p}
+    assert len(verd) == len(lrecs) + len(erecs), "judge: %d verdicts for %d records" % (len(verd), len(lrecs) + len(erecs))
+    ctx.log("TLC judge: %d verdicts (%d layout + %d error-path observation records for %d + %d cases)" % (
+        len(verd), len(lrecs), len(erecs), len(layout_cases), len(ecases)))
+
+    # ---- 6. violations come only from the verdicts
+    unjudged = 0
+    not_neutral = 0
+    unjudged_outcomes = {}
+    seen_v = set()
+    for idx, (ci, src, s, rec) in enumerate(layout_cases):
+        v = verd[lmap[idx] + 1]
+        c = corpus[ci]
+        if not v["judged"]:
+            unjudged += 1
+            if not v["neutral"]:
+                not_neutral += 1
+            k = "%s/%s" % (rec["outcome"], "same" if rec["same"] else (rec["err"] or "differs"))
+            unjudged_outcomes[k] = unjudged_outcomes.get(k, 0) + 1
+            continue
+        if v["ok"]:
+            continue
+        if rec["culprit"]:
+            ce, co, cerr = rec["culprit"]
+            cul, result = [ce], ("error:%s" % cerr if co == "error" else "differs")
+        else:
+            cul, result = s, ("error:%s" % rec["err"] if rec["outcome"] == "error" else "differs")
+        key = (c["file"], json.dumps(cul, sort_keys=True))
+        if key in seen_v:
+            continue
+        seen_v.add(key)
+        sig = {"colang": c["ver"], "op": "+".join(sorted(set(e["op"] for e in cul))),
+               "line_head": _head(c, cul[0]) if len(cul) == 1 else "", "result": result}
+        ctx.violation(v["reason"], "%s (Colang %s): layout edit %s -> %s" % (c["file"], c["ver"], cul, result),
+                      {"part": "layout", "file": c["file"], "version": c["ver"], "script": s, "minimal": cul,
+                       "text": c["text"] if len(c["text"]) < 4000 else None, "result": result, "sig": sig})
+    eviol = {}
+    for idx, (case, o) in enumerate(zip(ecases, eobs)):
+        v = verd[len(lrecs) + emap[idx] + 1]
+        if v["ok"]:
+            continue
+        sig = {"colang": case[1], "exception_type": o["exception_type"] or o["kind"], "raised_in": o["raised_in"],
+               "cause_type": o["cause_type"], "error_class": _norm_first_line(o["message"])}
+        key = json.dumps([v["reason"], sig["colang"], sig["exception_type"], sig["raised_in"], sig["cause_type"]])
+        eviol.setdefault(key, []).append((case, o, v, sig))
+    for key, lst in sorted(eviol.items()):
+        lst.sort(key=lambda x: len(x[0][3]))
+        for case, o, v, sig in lst[:2]:
+            ctx.violation(v["reason"], "Colang %s text %r (%s of %s): RailsConfig.from_path -> %s%s raised in %s (cause %s) "
+                          "[%d cases of this class]" % (
+                              case[1], case[3][:120], case[2], case[0], o["exception_type"] or o["kind"],
+                              "" if not o["message"] else ": " + o["message"].split("\n")[0][:100], o["raised_in"],
+                              o["cause_type"] or "-", len(lst)),
+                          {"part": "errors", "version": case[1], "seed": case[0], "mutation": case[2], "text": case[3],
+                           "observed": o, "class_size": len(lst), "sig": sig})
+
+    # ---- evidence
+    distinct_layout = set()
+    for (ci, src, s, rec) in layout_cases:
+        if len(s) >= 1:
+            distinct_layout.add((ci, json.dumps(s, sort_keys=True)))
+    distinct_err = set()
+    nontriv_err = 0
+    for case, o in zip(ecases, eobs):
+        h = hashlib.sha1((case[1] + "\0" + case[3]).encode("utf-8", "surrogatepass")).hexdigest()
+        if h not in distinct_err:
+            distinct_err.add(h)
+            if o["kind"] != "loaded":
+                nontriv_err += 1
+    outcomes = {}
+    for case, o in zip(ecases, eobs):
+        k = "%s/%s" % (case[1], o["exception_type"] or o["kind"])
+        outcomes[k] = outcomes.get(k, 0) + 1
+    slow = max((o["seconds"] for o in eobs), default=0)
+    samples = []
+    for (ci, src, s, rec) in layout_cases[:: max(1, len(layout_cases) // 3)][:3]:
+        samples.append({"kind": "layout", "file": corpus[ci]["file"], "version": corpus[ci]["ver"], "script": s[:6],
+                        "edited_outcome": rec["outcome"], "same_as_original": rec["same"]})
+    for i in range(0, len(ecases), max(1, len(ecases) // 3)):
+        samples.append({"kind": "error-path", "seed": ecases[i][0], "version": ecases[i][1], "mutation": ecases[i][2],
+                        "text": ecases[i][3][:200], "outcome": eobs[i]["exception_type"] or eobs[i]["kind"],
+                        "names_file": eobs[i]["names_file"]})
+    return {
+        "level": LEVEL,
+        "coverage": {
+            "evaluations": len(layout_cases) + len(ecases),
+            "distinct_nontrivial": len(distinct_layout) + nontriv_err,
+            "rule": "layout: every edit script TLC (MC_Layout, mode emit) reaches on the line abstraction of a real file "
+                    "(whole file when <= 14 lines, seeded windows of longer files; <= %s edits) plus whole-file saturation "
+                    "scripts, applied to the real text and parsed with parse_colang_file; distinct = distinct (file, script). "
+                    "error path: every 1-char deletion, truncation and %s insertion from a 14-symbol alphabet for %d seed "
+                    "programs per version, plus seeded token soups, each loaded with RailsConfig.from_path; distinct = "
+                    "distinct (version, text), non-trivial = the load did not succeed" % (
+                        "2 (1 for files of 11-14 lines)" if ctx.quick else "3 (2 for files/windows of more than 7 lines)",
+                        "a seeded 25% of every" if ctx.quick else "every", 5 if ctx.quick else 40),
+            "samples": samples,
+            "states": design["states"] + estates, "transitions": design["transitions"] + etrans,
+            "traces_validated_against_impl": len(layout_cases) + len(ecases),
+            "judge_records": len(lrecs) + len(erecs),
+            "design_runs": design["runs"], "negative_control": design["negative_control"], "loader_automaton": design["loader"],
+            "corpus": {"generated_programs": nseed, "shipped_files": len(corpus) - nseed, "skipped_unparsable": skipped,
+                       "abstractions_given_to_TLC": len(docs), "scripts_emitted": nscripts},
+            "layout_cases": len(layout_cases), "layout_distinct": len(distinct_layout),
+            "layout_not_judged": unjudged, "layout_not_judged_outcomes": unjudged_outcomes,
+            "layout_not_neutral_by_spec": not_neutral,
+            "error_cases": len(ecases), "error_distinct_texts": len(distinct_err), "error_outcomes": outcomes,
+            "error_seeds": used_seeds, "slowest_load_s": slow,
+        },
+        "assumptions": [
+            "the specification is a generator and an outcome judge; it does not model the Lark grammar or the Colang 1.0 parser",
+            "parse results are compared modulo source positions: _source, _source_mapping and the verbatim source_code copy "
+            "kept with each flow are removed before comparison",
+            "the driver's line classifier decides where an edit is neutral; it is conservative (a line it is not sure about "
+            "counts as inside a string and is never edited); ScaleIndent leaves lines that start inside a string literal alone "
+            "and is not applied to files indented with tabs",
+            "trailing white space is blanks (and blank+TAB, judged for Colang 1.0 only: the Colang 2.x grammar knows no inline "
+            "white space but the blank, a trailing TAB is a syntax error there - generated, reported in "
+            "layout_not_judged_outcomes, not judged)",
+            "an end-of-line comment is ' # ...' appended to a code line whose end is outside string literals (2.x only)",
+            "error path: only the exception type, the naming of the file and the 10 s budget are judged, never the wording",
+            "identical observation records are merged before the TLC judge run (n = multiplicity)",
+        ],
+    }
+
+
+def replay(ctx, rec):
+    case = rec["case"]
+    import logging
+    logging.disable(logging.CRITICAL)
+    if case.get("part") == "errors":
+        o = load_once(os.path.join(ctx.sub("replay"), "cfg"), case["version"], case["text"])
+        print("Colang %s text %r" % (case["version"], case["text"]))
+        print("recorded: %s" % json.dumps(case["observed"]))
+        print("now:      %s" % json.dumps(o))
+        ok = (o["kind"] == "loaded" or (o["kind"] == "exception" and o["parsing_error"] and o["names_file"])) and not o["over_budget"]
+        print("replay verdict: %s" % ("allowed outcome" if ok else "violation reproduced"))
+        return ok
+    text = case.get("text")
+    if text is None:
+        with open(os.path.join(FILES_ROOT, case["file"]), encoding="utf-8") as f:
+            text = f.read()
+    ver = case["version"]
+    base = parse_canon(case["file"], text, ver)
+    c = {"file": case["file"], "ver": ver, "text": text, "lines": classify(text, ver), "base": base[1], "tabs": False}
+    ok = True
+    for name in ("minimal", "script"):
+        outcome, same, err = _try(c, case[name])
+        print("%s %s -> %s%s" % (name, case[name], outcome, "" if outcome == "error" else (" same" if same else " DIFFERENT")),
+              err or "")
+        ok = ok and outcome == "parsed" and same
+    print("replay verdict: %s" % ("layout edit is neutral" if ok else "violation reproduced"))
+    return ok
